@@ -1,6 +1,7 @@
 import SpdxVerif.Props.C05
 import SpdxVerif.Props.Consts
 import SpdxVerif.Props.C01Text
+import SpdxVerif.Props.C05Text
 #print axioms Spdx.C05.parseTokens_iff
 #print axioms Spdx.C05.accepts_iff
 #print axioms Spdx.C05.D_unique
@@ -26,3 +27,8 @@ import SpdxVerif.Props.C01Text
 #print axioms Spdx.lexeme_word
 #print axioms Spdx.scan_seqOK
 #print axioms Spdx.scan_append
+#print axioms Spdx.C05.accepts_spaced_iff
+#print axioms Spdx.C05.parse_spaced
+#print axioms Spdx.C05.word_recognised_iff
+#print axioms Spdx.C05.word_plus_recognised_iff
+#print axioms Spdx.toks_spaced
